@@ -78,17 +78,20 @@ class Reply(SerializableMixin, DictableMixin):
         self.text = text
 
     def parse(self, data):
-        for line in data.splitlines(False):
-            match = re.match(br'(\d{3}|^)([ -]?)(.*)', line)
+        # Lines end with LF or CRLF.  A bare CR is data: splitting there
+        # (as bytes.splitlines does) would let one line from the server
+        # count as two.
+        if data.endswith(b'\n'):
+            data = data[:-2] if data.endswith(b'\r\n') else data[:-1]
+
+        for line in re.split(br'\r?\n', data):
+            match = re.match(br'(\d{3}|^)([ -]?)(.*)', line, re.DOTALL)
 
             if not match:
                 raise ProtocolError('Failed to parse reply.')
 
             if match.group(1) and match.group(2) == b' ':
-                if self.code is not None:
-                    # For example a bare CR inside the final reply line.
-                    raise ProtocolError('Reply has more than one final line.')
-
+                assert self.code is None
                 self.code = int(match.group(1))
 
             if self.text is None:
